@@ -2,6 +2,7 @@
 operation unless an operand is symbolic, in which case it dispatches to a
 model.  MODELS_USED records which models actually fired (for evidence)."""
 import io
+import re as _re
 import struct
 import types
 
@@ -23,9 +24,9 @@ _SYM = (SymInt, SymBool, SymBytes, SymBytesIO)
 def _symtypes():
     global _SYM
     try:
-        from .symstr import SymStr
+        from .symstr import SymStr, LazyStr
         from .symfloat import SymFloat
-        _SYM = (SymInt, SymBool, SymBytes, SymBytesIO, SymStr, SymFloat)
+        _SYM = (SymInt, SymBool, SymBytes, SymBytesIO, SymStr, SymFloat, LazyStr)
     except ImportError:
         pass
 
@@ -66,6 +67,7 @@ def pytype(x):
 
 
 _FUNC_TYPES = (types.FunctionType, types.MethodType)
+_BUILTIN_METHOD = type(_re.compile('a').match)
 
 # ---------------------------------------------------------------------------
 EXTRA = {}      # callable -> model(*a, **k) or NotImplemented; registered by harness kits
@@ -124,6 +126,11 @@ def call(f, *a, **k):
         return f(*a, **k)
     if tf is types.MethodDescriptorType or tf is types.WrapperDescriptorType or tf is types.ClassMethodDescriptorType:
         r = _unbound_c_method(f, a, k)
+        if r is not NotImplemented:
+            return r
+        return f(*a, **k)
+    if tf is _BUILTIN_METHOD:                # bound METH_METHOD method (re.Pattern.match, ...)
+        r = _bound_c_method(f, f.__self__, a, k)
         if r is not NotImplemented:
             return r
         return f(*a, **k)
@@ -442,6 +449,11 @@ def _bound_c_method(f, selfobj, a, k):
             from . import symstr
             return symstr.str_method(selfobj, name, a, k)
         return NotImplemented
+    if ts is _re.Pattern and name in ('match', 'fullmatch', 'search') and a and type(a[0]).__name__ in ('SymStr', 'LazyStr'):
+        from . import symre, symstr
+        used('re.' + name)
+        chars = symstr.cps(a[0])
+        return symre.FakeMatch() if bool(symre.matches(selfobj, chars, name)) else None
     if ts is list and name == 'sort' and not a and not k:
         return NotImplemented
     if EXTRA_METHODS:
@@ -521,6 +533,23 @@ def not_(x):
 
 
 def in_(x, container, neg):
+    if type(x).__name__ in ('SymStr', 'LazyStr') and type(container) in (set, frozenset, tuple, list):
+        # membership of a symbolic string in a collection of strings: compared element-wise, never hashed
+        from . import symstr
+        from .symseq import seq_eq
+        xs = symstr.cps(x)
+        r = False
+        for w in container:
+            if isinstance(w, str) and len(w) == len(xs):
+                e = seq_eq(xs, [ord(ch) for ch in w])
+                if e is True:
+                    r = True
+                    break
+                if e is not False:
+                    r = e | r
+        if isinstance(r, SymBool):
+            return ~r if neg else r
+        return (not r) if neg else r
     if type(x) is SymInt and type(container) in (tuple, list, set, frozenset) and len(container) <= 64:
         r = False
         for y in container:
